@@ -144,6 +144,13 @@ def to_impl(ty):
     raise TypeError(k)
 
 
+# transformer callables the generators use, by oracle id (the model only sees their recorded table)
+ORACLE_TRS = {
+    7: lambda x: x.upper()[:5],
+    8: lambda x: x.strip('"'),        # quote-stripping: '""' is set but transforms to the empty string
+}
+
+
 def _tr_fn(tr):
     if tr is None:
         return None
@@ -450,7 +457,7 @@ BOOL_POOL = ["1", "yes", "true", "on", "0", "no", "false", "off", "TRUE", "Yes",
 STR_POOL = ["abc", "Hello World", "  padded  ", "x", "a\\nb", "a\\tb", "c:\\\\new", "C:\\\\\\\\new\\\\\\\\tunes",
             "\\\\\\\\\\\\\\\\nas\\\\\\\\share", "q\\\\\\\\\\\\t", "http", "https", "socks4",
             "socks5", ".m3u", ".m3u8", "latin-1", "ÅÉ", "MiXeD", "\\\\", "%(levelname)s", "a;b", "#c", "a=b",
-            "\U0001F600", "x" * 40, "İstanbul", "\u212aelvin", "Top 40 #1 hits", "a\t#b", "#lead", "C# minor", "x #", "a #b ;c"]
+            "\U0001F600", "x" * 40, "İstanbul", "\u212aelvin", "Top 40 #1 hits", "a\t#b", "#lead", "C# minor", "x #", "a #b ;c", '""', '"quoted"', '"', "ABC", "Abc"]
 PATH_POOL = ["/tmp", "/tmp/x/../y", "~", "~/music", "~root/x", "~nosuchuser/x", "~nosuchuser", "$XDG_CACHE_DIR/m",
              "$XDG_CONFIG_DIR", "$XDG_DATA_DIR/a b", "$XDG_MUSIC_DIR", "$HOME/x", "rel/path", ".", "..", "",
              " /tmp ", "a\x00b", "/tmp/\udcff", "/tmp/é", "x" * 300, "/a\\nb", "$", "~~", "//x", "/tmp/", "~/$X",
@@ -517,6 +524,8 @@ def gen_raw(ty, rng, depth=0):
         return rng.choice(BOOL_POOL)
     if k == "Pair":
         a, b = gen_raw(ty[4], rng, depth + 1), gen_raw(ty[5], rng, depth + 1)
+        if ty[2] and rng.random() < 0.3:
+            b = a.swapcase() if rng.random() < 0.7 else a     # halves spelled differently / identically
         r = rng.random()
         if r < 0.7:
             return a + ty[3] + b
@@ -561,10 +570,11 @@ def gen_ty(rng, depth=0):
             ch = tuple(rng.sample(["http", "https", "a", ".m3u", "x y", "é", ""], rng.randint(0, 3)))
         tr = rng.weighted([(None, 4), ("lower", 2), ("upper", 1)])
         if tr == "upper":
-            tr = ("oracle", 7, lambda x: x.upper()[:5])
+            tr = ("oracle", 7, ORACLE_TRS[7])
         return ("String", opt, ch, tr)
     if k == "Secret":
-        return ("Secret", opt, rng.weighted([(None, 4), ("lower", 1)]))
+        tr = rng.weighted([(None, 4), ("lower", 1), ("stripq", 1)])
+        return ("Secret", opt, ("oracle", 8, ORACLE_TRS[8]) if tr == "stripq" else tr)
     if k == "Integer":
         if rng.random() < 0.25:
             return ("Integer", opt, 0, 65535, None)
